@@ -88,7 +88,8 @@ func (q *InQueue) waitNonEmtpyQueue() error {
 		return io.EOF
 	}
 
-	wait := make(chan struct{}, 0)
+	// (room for one value: the notifier must not block when the waiter has already left on its deadline)
+	wait := make(chan struct{}, 1)
 	q.queueNotifiers = append(q.queueNotifiers, func() {
 		wait <- struct{}{}
 	})
@@ -315,7 +316,8 @@ func (q *OutQueue) waitEmptyQueue() error {
 		return nil
 	}
 
-	wait := make(chan struct{}, 0)
+	// (room for one value: the notifier must not block when the waiter has already left on its deadline)
+	wait := make(chan struct{}, 1)
 	q.queueNotifiers = append(q.queueNotifiers, func() {
 		wait <- struct{}{}
 	})
